@@ -24,12 +24,28 @@ T_Img ==
     /\ ChkP(E.accepted = 1 => E.listing_same = 1, {"C15"}, "accepted-image-lists-other-content-than-the-completed-file")
     /\ ChkP(E.accepted = 1 => \A i \in 1..Len(E.ops) : E.ops[i][2] \in {"err", "same"}, {"C15"}, "accepted-image-returns-data-that-differs-from-the-completed-file")
     /\ nimg' = nimg + 1 /\ nacc' = nacc + (IF E.accepted = 1 THEN 1 ELSE 0) /\ UNCHANGED hasfin
+\* ---- binding of the design-level model CrashSpec to the recorded write sequence --------------------
+\* the device of CrashSpec after the first k recorded writes
+AbsDev(W, k) == [p \in 0..(E.pages - 1) |->
+                   LET idx == {j \in 1..k : W[j][1] = p}
+                   IN IF idx = {} THEN "none" ELSE W[CHOOSE j \in idx : \A i \in idx : i <= j][2]]
+XmlPagesOf == E.xml_first..E.xml_last
+AbsAccepted(d) == d[0] \in {"hdrF", "hdrP"} /\ \A p \in XmlPagesOf : p \in DOMAIN d /\ d[p] = "data"
+AbsComplete(d) == \A p \in DOMAIN d : d[p] \in {"data", "hdrF"}
+T_Writes ==
+    /\ IsEv("c15_writes")
+    /\ Chk(E.whole_pages = 1, "S:writes-are-not-whole-pages")
+    \* the recorded sequence obeys the commit ordering that CrashSpec proves sufficient
+    /\ \A k \in 0..Len(E.writes) :
+          \E d \in {AbsDev(E.writes, k)} :
+             ChkP(AbsAccepted(d) => (AbsComplete(d) /\ k > 0 /\ E.writes[k][3] = 1), {"C15"}, "write-order-allows-an-incomplete-image-to-be-accepted")
+    /\ UNCHANGED vars
 T_End ==
     /\ IsEv("c15_end")
     /\ Chk(E.final_equals_device = 1, "S:replayed-writes-do-not-reproduce-the-device")
     \* non-vacuity: a program with finalize ends in an accepted image
     /\ ChkP(hasfin = 1 => nacc >= 1, {"C15"}, "completed-file-not-accepted")
     /\ UNCHANGED vars
-TNext == T_Reset \/ T_Img \/ T_End
+TNext == T_Reset \/ T_Writes \/ T_Img \/ T_End
 TSpec == TInit /\ [][TNext]_<<vars, l>>
 =============================================================================
